@@ -4,6 +4,10 @@ def _c(id, text, note, technique):
 
 
 CHECKS = [
+    _c("C01",
+       "Generated-input search over well-formed trees (all shape classes, full finite float32 range, types 0-255), id offsets, source/comment settings and source kinds; oracle = write->read round trip with the four-decimal rounding recomputed by the decimal module, exact comment list, file/string agreement, independent row split of the written text, second round trip as fixed point. Exploration, not proof.",
+       "Trusted: decimal.quantize (precision 80) as the rounding reference; comment text without line breaks and not starting with the column header.",
+       "property-based testing (Hypothesis): round-trip oracle with independent decimal rounding reference"),
     _c("C04",
        "Generated-input search over tree shapes x numberings x start nodes x callback modes x entry points with recording callbacks; oracle derived from parent pointers (exactly-once, parent's value passed down, children's values passed up as a multiset, visit set = subtree, return value). Depth handled by 10^4-10^5-node chains and by lowering the recursion limit around 3000-deep traversals. Exploration, not proof.",
        "Trusted: the reference subtree/children computation in vlib/models.py; sibling visiting order is unspecified.",
@@ -12,6 +16,18 @@ CHECKS = [
        "Generated-input search over trees with extra columns under permuted numberings, as Tree / DataFrame (arbitrary distinct ids, root anywhere) / SWC text; oracle = tag-based bijection preserving parent relation and all columns, pid < id, purity of sort_nodes vs in-place sort_nodes_, re-sorting stays a relabelling. Exploration, not proof.",
        "Trusted: unique tag column identifies nodes across renumbering.",
        "property-based testing (Hypothesis): relabelling-invariance oracle through unique tags"),
+    _c("C06",
+       "Generated-input search over tagged trees x 13 extraction/pruning operations with generated arguments (start nodes, removal multisets, per-node decision tables, types, orders, thresholds derived from the tree); oracle = survivor set from the parent-pointer reference model, compared through tags, with per-survivor attributes, parent relation and new->old mapping. Exploration, not proof.",
+       "Trusted: reference model in props/c06.py + vlib/models.py; a threshold within 1e-4 of a branch length is accepted either way.",
+       "property-based testing (Hypothesis): reference-model oracle over survivor sets"),
+    _c("C07",
+       "Generated-input search over tagged lattice trees, new-root / junction choices, sort and translate modes, differing column sets; oracle = tag-based node set, columns, undirected and directed edges, root-type exchange, exact translation, junction merge, well-formed sorted result; plus PathToTree / PathReverser. Exploration, not proof.",
+       "Trusted: lattice coordinates make float32 translation exact; junctions are exactly coincident or >= 1/8 apart.",
+       "property-based testing (Hypothesis): structural reference model through unique tags, exact-arithmetic lattice"),
+    _c("C08",
+       "Generated-input search over trees with forced corner shapes (single node, unbranched chain, root degree 1/2/3+) and permuted numbering; oracle = reference decomposition from parent pointers for tips, furcations, branches (as id-tuple sets), paths, Node.branch, BranchTree nodes/edges/remembered points, ToLongestPath. Exploration, not proof.",
+       "Trusted: reference decomposition in vlib/models.py; list order unspecified.",
+       "property-based testing (Hypothesis): reference-model oracle for the branch decomposition"),
     {"id": "C02",
      "text": "Generated-input search: SWC texts assembled from the line grammar with exactly known rational values, read through every source kind/encoding/option; oracle = the generator's own table (exact equality) for valid texts, 'must raise' for texts with injected malformed lines or an undecodable byte, tag-based isomorphism for sort_nodes. No counterexample among the generated cases; this is exploration, not proof.",
      "ref": "DESIGN.md section 3 C02",
